@@ -185,15 +185,21 @@ def c06_variants(plan, hist):
     for k, call in enumerate(calls):
         for kind, en in [('crash', 'EIO')] + [('fail', e) for e in ERRNOS.get(call, ['EIO'])] + \
                 ([('short', 'EIO')] if call == 'write' else []):
-            p = copy.deepcopy(plan)
-            ops = p['epochs'][0]['ops']
-            for i, o in enumerate(ops):
-                if o['op'] == 'mark':
-                    ops[i] = {'t': o['t'], 'op': 'spoolfault', 'k': k, 'kind': kind, 'errno': en}
-                    break
-            p['variant'] = {'k': k, 'call': call, 'kind': kind, 'errno': en}
-            out.append(p)
+            out.append(apply_variant(plan, {'k': k, 'call': call, 'kind': kind, 'errno': en}))
     return calls, out
+
+
+def apply_variant(plan, variant):
+    """the plan with its MARK op turned into the one fault `variant` describes"""
+    import copy
+    p = copy.deepcopy(plan)
+    ops = p['epochs'][0]['ops']
+    for i, o in enumerate(ops):
+        if o['op'] == 'mark':
+            ops[i] = {'t': o['t'], 'op': 'spoolfault', 'k': variant['k'], 'kind': variant['kind'], 'errno': variant['errno']}
+            break
+    p['variant'] = dict(variant)
+    return p
 
 
 def check_c06(plan, mopts=None):
